@@ -28,3 +28,90 @@ Theorem unaryexpr_json_total :
     exists r, unary_json neg nt dec int op x = Some r.
 Proof. exact unaryexpr_json_total_proof. Qed.
 Print Assumptions unaryexpr_json_total.
+
+(* ---- the streaming consumers: totality (no panic: every read outside data ++ [0] is None/Panic in the models),
+   progress / linear number of calls, sticky end report, no over-read.  One module per consumer, because the
+   models share names (run, next, ...).  Each statement is the one proved in the consumer's own Props file. ---- *)
+From Verif Require Common.Lx Cursor.Model Cursor.Proofs.
+From Verif Require Xml.Model Xml.Step Xml.Proofs.
+From Verif Require Json.Model Json.Spec Json.Proofs Json.Trace Json.Sticky Json.Stuck Json.Congr.
+From Verif Require Gen.Tables Html.Model Html.ListLemmas Html.Safety Html.Step Html.Proofs.
+
+Module Cursor.
+  Import Verif.Cursor.Model Verif.Cursor.Proofs.
+  (* PeekRune never panics and never reports a length past the end, any byte string, any position *)
+  Theorem cursor_peekrune_total :
+    forall f z d i, buf z = d ++ [0] -> 0 <= pos z + i <= len d ->
+      exists r n, peek_rune f z i = Some (r, n) /\ 1 <= n <= 4 /\
+                  (pos z + i + n <= len d \/ (n = 1 /\ pos z + i = len d)).
+  Proof. exact peekrune_total_proof. Qed.
+  Print Assumptions cursor_peekrune_total.
+End Cursor.
+
+Module Xml.
+  Import Verif.Common.Lx Verif.Xml.Model Verif.Xml.Step Verif.Xml.Proofs.
+  Theorem xml_total :
+    forall d n, exists tr, run n (xml_init d) = Some tr /\ length tr = n.
+  Proof. exact xml_total_proof. Qed.
+  Print Assumptions xml_total.
+  (* the terminal report is reached within len d token calls *)
+  Theorem xml_terminates :
+    forall d, exists n s tok s',
+      (n <= length d)%nat /\ after n (xml_init d) = Some s /\ next s = Some (TError, tok, s').
+  Proof. exact xml_terminates_proof. Qed.
+  Print Assumptions xml_terminates.
+  Theorem xml_no_overread :
+    forall d s ty tok s', reach d s -> next s = Some (ty, tok, s') ->
+      sl_in tok 0 (len d) /\ sl_in (xtext s') 0 (len d) /\ sl_in (xattr s') 0 (len d) /\
+      0 <= lpos (xr s') <= len d.
+  Proof. exact xml_no_overread_proof. Qed.
+  Print Assumptions xml_no_overread.
+End Xml.
+
+Module Json.
+  Import Verif.Common.Lx Verif.Json.Model Verif.Json.Spec Verif.Json.Proofs Verif.Json.Trace Verif.Json.Sticky Verif.Json.Stuck Verif.Json.Congr.
+  Theorem json_total :
+    forall d n, exists tr, trace n (json_init d) = Some tr /\ length tr = n /\
+      Forall (fun up => exists s, state (snd up) = Some s /\ 0 <= s <= 3) tr.
+  Proof. exact json_total_proof. Qed.
+  Print Assumptions json_total.
+  (* among the first 2*len+2 calls there is a terminal report (an ErrorGrammar call that every further call repeats) *)
+  Theorem json_terminal_within :
+    forall d tr, trace (Z.to_nat (2 * len d + 2)) (json_init d) = Some tr ->
+      exists pre u p1 post, tr = pre ++ (u, p1) :: post /\ idle (last_parser (json_init d) pre) u p1.
+  Proof. exact terminal_within_proof. Qed.
+  Print Assumptions json_terminal_within.
+  (* once io.EOF has been reported every further call reports it again, state unchanged *)
+  Theorem json_eof_sticky :
+    forall d p p1 n, json_inv d p -> next p = Some ((G_Error, None), p1) -> err_kind p1 = 1 ->
+      exists tr, trace n p1 = Some tr /\ length tr = n /\
+        Forall (fun up => fst up = (G_Error, None) /\ err_kind (snd up) = 1 /\ pst (snd up) = pst p1 /\
+                          pneed (snd up) = pneed p1 /\ lpos (pz (snd up)) = lpos (pz p1)) tr.
+  Proof. exact json_eof_sticky_proof. Qed.
+  Print Assumptions json_eof_sticky.
+End Json.
+
+Module Html.
+  Import Verif.Common.Lx Verif.Gen.Tables Verif.Html.Model Verif.Html.ListLemmas Verif.Html.Safety Verif.Html.Step Verif.Html.Proofs.
+  (* with or without template delimiters (cfg_ok: the delimiters contain no NUL; true of the six predefined pairs) *)
+  Theorem html_total :
+    forall c d n, cfg_ok c -> exists tr, run c n (new_lexer d) = Ok tr /\ length tr = n.
+  Proof. exact html_total_proof. Qed.
+  Print Assumptions html_total.
+  Theorem html_progress_eof :
+    forall c d n tr, cfg_ok c -> run c n (new_lexer d) = Ok tr -> (length d < n)%nat ->
+      exists k l', (k <= length d)%nat /\ nth_error tr k = Some (ErrorT, None, l') /\ lpos (lz l') = len d.
+  Proof. exact html_progress_eof_proof. Qed.
+  Print Assumptions html_progress_eof.
+  Theorem html_eof_sticky :
+    forall c d l n, cfg_ok c -> html_inv d l -> lpos (lz l) = len d ->
+      exists tr, run c n l = Ok tr /\ length tr = n /\
+        Forall (fun r => fst (fst r) = ErrorT /\ snd (fst r) = None /\ lpos (lz (snd r)) = len d /\
+                         err_kind (snd r) = err_kind l) tr.
+  Proof. exact html_eof_sticky_proof. Qed.
+  Print Assumptions html_eof_sticky.
+  Theorem html_no_overread :
+    forall c d n, cfg_ok c -> exists tr, run c n (new_lexer d) = Ok tr /\ Forall (no_overread_at d) tr.
+  Proof. exact html_no_overread_proof. Qed.
+  Print Assumptions html_no_overread.
+End Html.
